@@ -15,7 +15,9 @@ BUDGET_S = {"quick": 420, "thorough": 3000}
 S1, S2 = 7, 20
 COPY = {"D": ("Memcpy DtoD (Device -> Device)", "gpu_memcpy", "Memcpy DtoD"),
         "H": ("Memcpy HtoD (Pageable -> Device)", "gpu_memcpy", "Memcpy HtoD"),
-        "S": ("Memset (Device)", "gpu_memset", "Memset")}
+        "S": ("Memset (Device)", "gpu_memset", "Memset"),
+        # a second kernel name of the same copy type (the type is the first 11 characters of the name)
+        "h": ("Memcpy HtoD (Pinned -> Device)", "gpu_memcpy", "Memcpy HtoD")}
 BOUNDS = {
     "quick": "queue family: 1..3 linked launch/kernel pairs on <= 2 streams (+ optionally one unlinked launch and one "
              "unlinked kernel), symbolic Int ts (all equalities reachable), adversarial sort ties; bandwidth family: "
@@ -68,6 +70,9 @@ def skeletons(tier):
                 continue
             out.append({"id": "bw-" + "".join(w), "fam": "bw", "word": "".join(w), "params": {"nranks": 1},
                         "vars": {f"c{i}_bw": ["real", 0, None] for i in range(m)}})
+    for w in (["Hh"] if tier == "quick" else ["Hh", "HhD", "HHh"]):
+        out.append({"id": "bw-" + w, "fam": "bw", "word": w, "params": {"nranks": 1},
+                    "vars": {f"c{i}_bw": ["real", 0, None] for i in range(len(w))}})
     for pre in ("launch", "idle", "temporal"):
         out.append({"id": f"q-aa-after-{pre}", "fam": "queue", "word": "aa",
                     "params": {"ul": False, "uk": False, "nranks": 1, "tie_mode": "stable", "pre": [pre]}})
